@@ -52,12 +52,24 @@ def showObs (s : TS) : String :=
   let cur := match currentItem s with | some i => toString i | none => "n"
   s!"{showDot (Utf8.fromRunes s.input)}~{s.cy}~{cur}~{s.results.length}~{showDot s.selected}"
 
-def run (ctx : Algo.Ctx) (op : String) (args impl : List String) : Outcome :=
-  match op, args with
-  | "sess", [optS, lines, steps] =>
+structure Setup where
+  o : String → String → String
+  top : Opts
+  init : TS
+  parsed : List (List (Option Action))
+  texts : Array Str
+  ls : List Str
+  headers : List Str
+  fo : Fzf.Filter.Opts
+  cfg : Cfg
+
+def setup (ctx : Algo.Ctx) (optS lines steps : String) : Setup :=
     let opts := (optS.splitOn ";").filterMap fun kv => match kv.splitOn "=" with | [k, v] => some (k, v) | _ => none
     let o (k d : String) := optOf opts k d
-    let ls := parseStrList lines
+    let all := parseStrList lines
+    let hl := (o "hlines" "0").toNat!
+    let ls := all.drop hl
+    let headers := all.take hl
     let cfg : Cfg := { U := ctx.unicode, sch := schemeDefault, norm := ctx.norm }
     let fo : Fzf.Filter.Opts := {
       cfg, criteria := Fzf.Filter.schemeCriteria "default", fuzzy := o "exact" "0" != "1", v2 := true, extended := true,
@@ -79,7 +91,7 @@ def run (ctx : Algo.Ctx) (op : String) (args impl : List String) : Outcome :=
     let layout := match o "layout" "default" with | "reverse" => Layout.reverse | "reverse-list" => .reverseList | _ => .default
     let texts := ls.toArray
     let top : Opts := {
-      multi := (o "multi" "0").toNat!, cycle := o "cycle" "0" == "1", layout, maxItems := rows - 2, total := ls.length,
+      multi := (o "multi" "0").toNat!, cycle := o "cycle" "0" == "1", layout, maxItems := rows - (o "fixed" "2").toNat!, total := ls.length,
       isWord := isWord ctx, resultsOf,
       itemText := fun i => (Fzf.Filter.toChars (texts.getD i [])).1.toList }
     let nosort := o "nosort" "0" == "1"
@@ -89,6 +101,18 @@ def run (ctx : Algo.Ctx) (op : String) (args impl : List String) : Outcome :=
     let expand (a : String) : List String :=
       if a == "toggle-down" then ["toggle", "down"] else if a == "toggle-up" then ["toggle", "up"] else [a]
     let parsed := stepList.map fun st => ((st.splitOn "+").flatMap expand).map parseAction
+    { o, top, init, parsed, texts, ls, headers, fo, cfg }
+
+def run (ctx : Algo.Ctx) (op : String) (args impl : List String) : Outcome :=
+  match op, args with
+  | "sess", [optS, lines, steps] =>
+    let su := setup ctx optS lines steps
+    let o := su.o
+    let top := su.top
+    let init := su.init
+    let parsed := su.parsed
+    let texts := su.texts
+    let ls := su.ls
     if parsed.any (·.any Option.isNone) then { model := "unknown-action" } else
     let (final, obs) := parsed.foldl (fun (acc : TS × List String) as =>
       let s' := step top acc.1 (as.filterMap id)
